@@ -156,6 +156,10 @@ def run(run, rng):
         case = trained.gen_train_case(rng, max_len_choices=(21, 21, 8), encodings=['utf-8', 'utf-8', 'utf-8', 'latin-1', 'cp1251', 'cp1252', 'ascii', 'iso-8859-7', 'cp1254', 'utf-8-sig'])
         if i % 12 == 5:
             case['linked'] = ['first', 'retrain'][(i // 12) % 2]
+        if i % 7 == 3 and case['encoding'] == 'utf-8':
+            # passwords that are not in Unicode normal form C (a base letter followed by a combining mark, as some keyboards and macOS produce them; the Greek
+            # question mark U+037E): the training password is that sequence of code points
+            case['items'] += [[w, rng.choice([1, 2])] for w in rng.sample(['cafe\u0301', '\u0438\u0306ra1', '\u0391\u0301lpha', 'a\u030a9', 'why\u037e'], 2)]
         if i % 9 == 4 and not case.get('prefixcount'):
             # lines the trainer has to skip, written as $HEX[..]: what they decode to holds a TAB / line separator (a password no line-oriented file can hold).
             # They are frequent, so that a terminal made from one would not be the last line of its file
